@@ -420,7 +420,7 @@ def check_schur(fn, A4, budget, tol, hermitian_spectrum=None):
             return {"what": "converged=True but T is not upper triangular to the tolerance", "max_strictly_lower": low, "tol": tol}
         if hermitian_spectrum is not None:
             d = np.array([T4[i, i] for i in range(n)])
-            if np.abs(d[:, 1:]).max() > 1e-7 * sc or not np.allclose(np.sort(d[:, 0]), np.sort(hermitian_spectrum), atol=1e-6 * sc):
+            if not (np.abs(d[:, 1:]).max() <= 1e-7 * sc) or not np.allclose(np.sort(d[:, 0]), np.sort(hermitian_spectrum), atol=1e-6 * sc):
                 return {"what": "converged on Hermitian input but diag(T) is not the real spectrum", "diag": d}
     return None
 
@@ -492,6 +492,8 @@ def run(tier, seed):
     ]
     rep.trusted += ["qv engine", "z3 5.1", "library model"]
     deductive(rep, tier)
+    from ..frame import no_module_state
+    no_module_state(rep, P, [SC + n_ for n_ in ("quaternion_schur", "quaternion_schur_pure", "quaternion_schur_pure_implicit", "quaternion_schur_unified", "quaternion_schur_experimental", "_strictly_lower_max")])
     bounded(rep, tier, seed)
     return rep
 
